@@ -111,6 +111,8 @@ def gen_group(rng, small=False):
     nproc = rng.choice([1, 1, 2, 3])
     return {"size": rng.choice([1, 2, 3]) if small else rng.choice([1, 2, 3, 4, 6, 500]), "time": time,
             "wall_min": rng.choice([3, 4, 5, 6, 8, 10]), "nproc": nproc if time else rng.choice([None, 1, 2]),
+            # walltimes are not always whole minutes (HH:MM:SS): the limit is compared in seconds
+            "wall_sec": rng.choice([0, 0, 0, 15, 30, 45, 59]),
             "try": rng.random() < 0.6, "dry": False}
 
 
@@ -541,7 +543,7 @@ def run_round_impl(sc, tmp):
 
 def _walltime(g):
     wall = g.get("wall_min", 60)
-    return "%d:%02d:00" % (wall // 60, wall % 60)
+    return "%d:%02d:%02d" % (wall // 60, wall % 60, g.get("wall_sec", 0))
 
 
 def round_oracle(sc, obs):
